@@ -53,6 +53,8 @@ def wrapper_rule(F, G, rep):
         cond = []
         while id(x) in par:
             x = par[id(x)]
+            if x.get("k") == "If" and strip(x["cond"]).get("k") == "LetCond" and tir.place(strip(x["cond"])["init"]) == "self.hasher":
+                continue   # conditional on the hasher's presence only
             if x.get("k") in ("If", "Match", "Loop", "For"):
                 cond.append(x["k"])
         rep.ob("wrapper.update-uncond", not cond, HR_READ, "guard", "Xxh3::update is under %s: some consumed bytes would not be hashed" % cond)
